@@ -2,7 +2,7 @@
    corollaries used by Props.v. *)
 From Coq Require Import List NArith Bool Lia Arith.
 From Verif.C18 Require Import Gen_Quote Model.
-From Verif.C18 Require Export ProofsBase ProofsStr ProofsDollar ProofsBytes ProofsIdent.
+From Verif.C18 Require Export ProofsBase ProofsStr ProofsDollar ProofsFuel ProofsBytes ProofsIdent.
 Import ListNotations.
 Open Scope N_scope.
 
